@@ -50,12 +50,40 @@ use octseq::serde::{DeserializeOctets, SerializeOctets};
 /// [`Display`]: core::fmt::Display
 #[derive(Clone)]
 #[repr(transparent)]
-#[cfg_attr(feature = "arbitrary", derive(arbitrary::Arbitrary))]
 pub struct Name<Octs: ?Sized>(Octs);
 
 impl Name<()> {
     /// Domain names have a maximum length of 255 octets.
     pub const MAX_LEN: usize = 255;
+}
+
+/// Generates correctly encoded names only.
+///
+/// (Deriving the impl would wrap arbitrary octets without any check.)
+#[cfg(feature = "arbitrary")]
+impl<'a, Octs> arbitrary::Arbitrary<'a> for Name<Octs>
+where
+    Octs: FromBuilder,
+    <Octs as FromBuilder>::Builder: EmptyBuilder
+        + FreezeBuilder<Octets = Octs>
+        + AsRef<[u8]>
+        + AsMut<[u8]>,
+{
+    fn arbitrary(
+        u: &mut arbitrary::Unstructured<'a>,
+    ) -> arbitrary::Result<Self> {
+        let mut builder = NameBuilder::<Octs::Builder>::new();
+        // Append labels for as long as there is data and they still fit.
+        while !u.is_empty() && u.arbitrary::<bool>()? {
+            let len = u.int_in_range(1..=Label::MAX_LEN)?.min(u.len());
+            if len == 0 || builder.append_label(u.bytes(len)?).is_err() {
+                break;
+            }
+        }
+        builder
+            .into_name()
+            .map_err(|_| arbitrary::Error::IncorrectFormat)
+    }
 }
 
 /// # Creating Values
